@@ -896,12 +896,100 @@ fn v3pub(pid: &str) {
         let _ = Paseto::<V3, Public>::try_verify(&t, pub_, None, None);
         let mut other = pkb; other[0] ^= 1; let ko = Key::<49>::from(other);
         if let Ok(po) = PasetoAsymmetricPublicKey::<V3, Public>::try_from(&ko) { if Paseto::<V3, Public>::try_verify(&t, &po, None, None).is_ok() { return wit(format!("C04 v3.public token signed for K verifies under -K (sign byte flipped) after a verification under K: {t}")); } } } }
-    // layers
+    // layers: generic and batteries-included, footer / assertion given to both sides, a builder used twice
+    for fo in [None, Some("ft")] { for ia in [None, Some("ia")] {
+        let mut gb = GenericBuilder::<V3, Public>::default(); gb.set_claim(AudienceClaim::from("customers")).set_claim(CustomClaim::try_from(("n", 5)).unwrap());
+        if let Some(f) = fo { gb.set_footer(Footer::from(f)); } if let Some(i) = ia { gb.set_implicit_assertion(ImplicitAssertion::from(i)); }
+        for round in 0..2 { match gb.try_sign(priv_) { Ok(t) => { let t = lk(&t);
+            let mut gp = GenericParser::<V3, Public>::default(); if let Some(f) = fo { gp.set_footer(Footer::from(f)); } if let Some(i) = ia { gp.set_implicit_assertion(ImplicitAssertion::from(i)); }
+            match gp.parse(t, pub_) { Ok(j) if j == serde_json::json!({"aud": "customers", "n": 5}) => {}, o => return wit(format!("{pid} GenericBuilder/GenericParser<V3,Public> footer {fo:?} assertion {ia:?} sign #{round}: parse gives {:?}", o.map_err(|e| e.to_string()))) }
+            for (f2, i2) in [(Some("other"), ia), (fo, Some("other")), (None, ia), (fo, None)] { if f2.unwrap_or("") == fo.unwrap_or("") && i2.unwrap_or("") == ia.unwrap_or("") { continue; }
+                let mut gp = GenericParser::<V3, Public>::default(); if let Some(f) = f2 { gp.set_footer(Footer::from(f)); } if let Some(i) = i2 { gp.set_implicit_assertion(ImplicitAssertion::from(i)); }
+                if gp.parse(t, pub_).is_ok() { return wit(format!("{pid} GenericParser<V3,Public>: token built with footer {fo:?} / assertion {ia:?} accepted with {f2:?} / {i2:?}")); } }
+            let parts: Vec<&str> = t.split('.').collect(); if let Some(d) = R::unb64(parts[2]) { let mut e = d.clone(); e[0] ^= 1; let mut t2 = format!("v3.public.{}", R::b64(&e)); if parts.len() == 4 { t2.push('.'); t2.push_str(parts[3]); }
+                if !d.is_empty() { let mut gp = GenericParser::<V3, Public>::default(); if let Some(f) = fo { gp.set_footer(Footer::from(f)); } if let Some(i) = ia { gp.set_implicit_assertion(ImplicitAssertion::from(i)); } if gp.parse(lk(&t2), pub_).is_ok() { return wit(format!("C03 GenericParser<V3,Public> accepts an altered token (first message byte changed)")); } } }
+        } Err(e) => return wit(format!("{pid} GenericBuilder<V3,Public>::try_sign #{round} failed: {e}")) } }
+        let mut pbb = PasetoBuilder::<V3, Public>::default(); pbb.set_claim(SubjectClaim::from("s1")); if let Some(f) = fo { pbb.set_footer(Footer::from(f)); } if let Some(i) = ia { pbb.set_implicit_assertion(ImplicitAssertion::from(i)); }
+        for round in 0..2 { match pbb.build(priv_) { Ok(t) => { let mut pp = PasetoParser::<V3, Public>::default(); if let Some(f) = fo { pp.set_footer(Footer::from(f)); } if let Some(i) = ia { pp.set_implicit_assertion(ImplicitAssertion::from(i)); }
+            match pp.parse(lk(&t), pub_) { Ok(j) if j["sub"] == "s1" && j["exp"].is_string() && j["iat"].is_string() && j["nbf"].is_string() => {}, o => return wit(format!("{pid} PasetoBuilder/PasetoParser<V3,Public> footer {fo:?} assertion {ia:?} build #{round}: parse gives {:?}", o.map_err(|e| e.to_string()))) } } Err(e) => return wit(format!("{pid} PasetoBuilder<V3,Public>::build #{round} failed: {e}")) } }
+    }}
     let mut pb = PasetoBuilder::<V3, Public>::default(); pb.set_no_expiration_danger_acknowledged();
     if let Ok(t) = pb.build(priv_) { match GenericParser::<V3, Public>::default().parse(lk(&t), pub_) { Ok(j) => { if !j["exp"].is_null() { return wit(format!("C13 PasetoBuilder<V3,Public> with acknowledged no-expiration still carries exp: {j}")); } } Err(e) => return wit(format!("{pid} PasetoBuilder<V3,Public> token does not parse: {e}")) } }
     { use std::collections::HashMap; let mut vm: ValidatorMap = HashMap::new(); vm.insert("foo".to_string(), Box::new(|_k: &str, _v: &serde_json::Value| Err(PasetoClaimError::CustomValidation("foo".into()))));
       let mut b = GenericBuilder::<V3, Public>::default(); b.set_claim(CustomClaim::try_from(("foo", "bar")).unwrap()); if let Ok(t) = b.try_sign(priv_) { let mut p = GenericParser::<V3, Public>::default(); p.extend_validation_claims(vm); if p.parse(lk(&t), pub_).is_ok() { return wit("C16 GenericParser<V3,Public>: rejecting validator registered with extend_validation_claims is not honoured".into()); }
         let mut p2 = GenericParser::<V3, Public>::default(); p2.check_claim(AudienceClaim::from("zz")); if p2.parse(lk(&t), pub_).is_ok() { return wit("C15 GenericParser<V3,Public> expecting aud=zz accepts a token without aud".into()); } } }
+}
+
+
+// ---------------------------------------------------------------------------------------------
+// every layer x every version/purpose of the main feature set: the same scenarios, selected by property
+// ---------------------------------------------------------------------------------------------
+#[cfg(feature = "main_set")]
+fn layer_matrix(pid: &str) {
+    use serde_json::json;
+    std::panic::set_hook(Box::new(|_| {}));
+    let is = |ps: &[&str]| ps.contains(&pid);
+    macro_rules! one { ($V:ty, $P:ty, $name:expr, $bkey:expr, $pkey:expr, $wrongkey:expr, $build:ident, $ia:tt) => {{
+        let bkey = $bkey; let pkey = $pkey; let wrongkey = $wrongkey;
+        for fo in [None, Some("ft")] { let ia: Option<&str> = if $ia { Some("ia") } else { None };
+            // generic layer
+            let mut gb = GenericBuilder::<$V, $P>::default(); gb.set_claim(AudienceClaim::from("customers")).set_claim(CustomClaim::try_from(("n", 5)).unwrap()).set_claim(CustomClaim::try_from(("u", "Zo\u{eb}")).unwrap());
+            if let Some(f) = fo { gb.set_footer(Footer::from(f)); }
+            mx_ia!($ia, gb, ia);
+            let mut toks = vec![];
+            for round in 0..2 { match gb.$build(bkey) { Ok(t) => toks.push(t), Err(e) => { if is(&["C01", "C02"]) { return wit(format!("{pid} GenericBuilder<{}>::{} #{round} failed: {e}", $name, stringify!($build))); } } } }
+            for (round, t) in toks.iter().enumerate() { let t = lk(t);
+                let mut gp = GenericParser::<$V, $P>::default(); if let Some(f) = fo { gp.set_footer(Footer::from(f)); } mx_ia!($ia, gp, ia);
+                let r = gp.parse(t, pkey);
+                if is(&["C01", "C02", "C05", "C06", "C08", "C14"]) { match &r { Ok(j) if *j == json!({"aud": "customers", "n": 5, "u": "Zo\u{eb}"}) => {}, o => return wit(format!("{pid} GenericBuilder/GenericParser<{}> footer {fo:?} assertion {ia:?} build #{round}: claims aud=customers,n=5,u=Zo\u{eb} were set, the parser was given the same footer and assertion, but parse gives {:?}", $name, o.as_ref().map_err(|e| e.to_string()))) } }
+                if is(&["C05", "C08"]) { let seg: Vec<&str> = t.split('.').collect(); let want = if fo.unwrap_or("").is_empty() { 3 } else { 4 }; if seg.len() != want || (want == 4 && seg[3] != R::b64(fo.unwrap_or("").as_bytes())) { return wit(format!("{pid} GenericBuilder<{}>: the footer segment of the token built with footer {fo:?} is not base64url(footer): {t}", $name)); } }
+                if r.is_err() { continue; }
+                if is(&["C04"]) { let mut gp = GenericParser::<$V, $P>::default(); if let Some(f) = fo { gp.set_footer(Footer::from(f)); } mx_ia!($ia, gp, ia); if gp.parse(t, wrongkey).is_ok() { return wit(format!("C04 GenericParser<{}> accepts a token under a key it was not produced with", $name)); } }
+                if is(&["C05"]) { for f2 in [None, Some("ft"), Some("other"), Some("")] { let same = fo.unwrap_or("") == f2.unwrap_or(""); let mut gp = GenericParser::<$V, $P>::default(); if let Some(f) = f2 { gp.set_footer(Footer::from(f)); } mx_ia!($ia, gp, ia);
+                    if gp.parse(t, pkey).is_ok() != same { return wit(format!("C05 GenericParser<{}>: token built with footer {fo:?}, expected footer {f2:?} -> accepted = {} but must be {same}", $name, !same)); } } }
+                if is(&["C06"]) && $ia { for i2 in [None, Some("ia"), Some("other"), Some("")] { let same = ia.unwrap_or("") == i2.unwrap_or(""); let mut gp = GenericParser::<$V, $P>::default(); if let Some(f) = fo { gp.set_footer(Footer::from(f)); } mx_ia!($ia, gp, i2);
+                    if gp.parse(t, pkey).is_ok() != same { return wit(format!("C06 GenericParser<{}>: token built with assertion {ia:?}, presented with {i2:?} -> accepted = {} but must be {same}", $name, !same)); } } }
+                if is(&["C03"]) { let parts: Vec<&str> = t.split('.').collect(); if let Some(d) = R::unb64(parts[2]) { let n = d.len(); for pos in [0usize, n / 2, n - 1] { let mut e = d.clone(); e[pos] ^= 0x01; let mut t2 = format!("{}.{}.{}", parts[0], parts[1], R::b64(&e)); if parts.len() == 4 { t2.push('.'); t2.push_str(parts[3]); }
+                    let mut gp = GenericParser::<$V, $P>::default(); if let Some(f) = fo { gp.set_footer(Footer::from(f)); } mx_ia!($ia, gp, ia);
+                    match catch_unwind(AssertUnwindSafe(|| gp.parse(lk(&t2), pkey))) { Ok(Ok(j)) => return wit(format!("C03 GenericParser<{}> accepts an altered token (bit 0 of decoded byte {pos}/{n} flipped) -> {j}", $name)), Ok(Err(e)) => { if !matches!(e, GenericParserError::CipherError { .. }) { return wit(format!("C03 GenericParser<{}> reports an altered token (byte {pos}/{n}) as {e:?} instead of a cipher error: content was looked at before authentication", $name)); } } Err(_) => return wit(format!("C03 GenericParser<{}> panics on an altered token (byte {pos}/{n})", $name)) } } } }
+                if is(&["C15"]) { let mut gp = GenericParser::<$V, $P>::default(); if let Some(f) = fo { gp.set_footer(Footer::from(f)); } mx_ia!($ia, gp, ia); gp.check_claim(AudienceClaim::from("customers")).check_claim(CustomClaim::try_from(("n", 5)).unwrap()); if gp.parse(t, pkey).is_err() { return wit(format!("C15 GenericParser<{}> expecting aud=customers,n=5 rejects a token that carries them", $name)); }
+                    for (d, bad) in [("aud=Customers", 0), ("n=6", 1), ("missing=1", 2)] { let mut gp = GenericParser::<$V, $P>::default(); if let Some(f) = fo { gp.set_footer(Footer::from(f)); } mx_ia!($ia, gp, ia); match bad { 0 => { gp.check_claim(AudienceClaim::from("Customers")); } 1 => { gp.check_claim(CustomClaim::try_from(("n", 6)).unwrap()); } _ => { gp.check_claim(CustomClaim::try_from(("missing", 1)).unwrap()); } }
+                        if gp.parse(t, pkey).is_ok() { return wit(format!("C15 GenericParser<{}> expecting {d} accepts a token with aud=customers,n=5", $name)); } } }
+                if is(&["C16"]) { fn rej(_k: &str, _v: &serde_json::Value) -> Result<(), PasetoClaimError> { Err(PasetoClaimError::CustomValidation("no".into())) }
+                    for which in 0..2 { let mut gp = GenericParser::<$V, $P>::default(); if let Some(f) = fo { gp.set_footer(Footer::from(f)); } mx_ia!($ia, gp, ia); if which == 0 { gp.validate_claim(AudienceClaim::from("customers"), &rej); } else { gp.validate_claim(CustomClaim::try_from("absent").unwrap(), &rej); }
+                        if gp.parse(t, pkey).is_ok() { return wit(format!("C16 GenericParser<{}>: a rejecting validator for {} is not honoured", $name, if which == 0 { "aud" } else { "an absent claim" })); } } }
+            }
+            // batteries-included layer
+            let mut pb = PasetoBuilder::<$V, $P>::default(); pb.set_claim(SubjectClaim::from("s1")); if let Some(f) = fo { pb.set_footer(Footer::from(f)); } mx_ia!($ia, pb, ia);
+            for round in 0..2 { match pb.build(bkey) { Ok(t) => { let t = lk(&t);
+                let mut pp = PasetoParser::<$V, $P>::default(); if let Some(f) = fo { pp.set_footer(Footer::from(f)); } mx_ia!($ia, pp, ia);
+                let r = pp.parse(t, pkey);
+                if is(&["C01", "C02", "C05", "C06", "C08", "C13", "C14"]) { match &r { Ok(j) if j["sub"] == "s1" && j["exp"].is_string() && j["iat"].is_string() && j["nbf"].is_string() && j.as_object().map(|o| o.len()) == Some(4) => {}, o => return wit(format!("{pid} PasetoBuilder/PasetoParser<{}> footer {fo:?} build #{round}: expected exactly sub=s1 plus default exp/iat/nbf, parse gives {:?}", $name, o.as_ref().map_err(|e| e.to_string()))) } }
+                if r.is_err() { continue; }
+                if is(&["C04"]) { let mut pp = PasetoParser::<$V, $P>::default(); if let Some(f) = fo { pp.set_footer(Footer::from(f)); } mx_ia!($ia, pp, ia); if pp.parse(t, wrongkey).is_ok() { return wit(format!("C04 PasetoParser<{}> accepts a token under a key it was not produced with", $name)); } }
+                if is(&["C05"]) { for f2 in [None, Some("ft"), Some("other")] { let same = fo.unwrap_or("") == f2.unwrap_or(""); let mut pp = PasetoParser::<$V, $P>::default(); if let Some(f) = f2 { pp.set_footer(Footer::from(f)); } mx_ia!($ia, pp, ia); if pp.parse(t, pkey).is_ok() != same { return wit(format!("C05 PasetoParser<{}>: token built with footer {fo:?}, expected footer {f2:?} -> accepted = {} but must be {same}", $name, !same)); } } }
+                if is(&["C06"]) && $ia { for i2 in [None, Some("other")] { let mut pp = PasetoParser::<$V, $P>::default(); if let Some(f) = fo { pp.set_footer(Footer::from(f)); } mx_ia!($ia, pp, i2); if pp.parse(t, pkey).is_ok() { return wit(format!("C06 PasetoParser<{}>: token built with assertion {ia:?} accepted with {i2:?}", $name)); } } }
+                if is(&["C11", "C12"]) { /* default validators per version: an expired / not yet valid token built through the generic builder */
+                    for (claim, val) in [("exp", "2000-01-01T00:00:00Z"), ("nbf", "2999-01-01T00:00:00Z"), ("exp", "garbage"), ("nbf", "garbage")] { if (pid == "C11") != (claim == "exp") { continue; }
+                        let mut gb2 = GenericBuilder::<$V, $P>::default(); gb2.set_claim(CustomClaim::try_from(("x", 1)).unwrap());
+                        if claim == "exp" { match ExpirationClaim::try_from(val) { Ok(c) => { gb2.set_claim(c); } Err(_) => continue } } else { match NotBeforeClaim::try_from(val) { Ok(c) => { gb2.set_claim(c); } Err(_) => continue } }
+                        if let Ok(t2) = gb2.$build(bkey) { if PasetoParser::<$V, $P>::default().parse(lk(&t2), pkey).is_ok() { return wit(format!("{pid} default PasetoParser<{}> accepts a token whose {claim} is {val}", $name)); } } } }
+            } Err(e) => { if is(&["C01", "C02", "C13"]) { return wit(format!("{pid} PasetoBuilder<{}>::build #{round} failed: {e}", $name)); } } } }
+        }
+        if is(&["C09"]) { for s in ["", ".", "..", "...", "a.b.c", "a.b.c.d", "v4.local.", "v1.public.AAAA", "v2.local.AAAA.AAAA", "v3.local.\u{20ac}", "\u{20ac}.\u{20ac}.\u{20ac}"] { let hdr = format!("{}.", $name.to_lowercase().replace(",", "."));
+            for t in [s.to_string(), format!("{hdr}{}", R::b64(&[0u8; 7])), format!("{hdr}{}", R::b64(&[0u8; 70])), format!("{hdr}{}.\u{e9}", R::b64(&[0u8; 120])), format!("{hdr}{}.Zm9v", R::b64(&[255u8; 300]))] {
+                if catch_unwind(AssertUnwindSafe(|| { let _ = GenericParser::<$V, $P>::default().parse(lk(&t), pkey); let _ = PasetoParser::<$V, $P>::default().parse(lk(&t), pkey); let mut g = GenericParser::<$V, $P>::default(); g.set_footer(Footer::from("foo")); let _ = g.parse(lk(&t), pkey); })).is_err() { return wit(format!("C09 GenericParser/PasetoParser<{}>::parse panics on token {t:?}", $name)); } } } }
+    }} }
+    macro_rules! mx_ia { (true, $obj:ident, $ia:expr) => { if let Some(i) = $ia { $obj.set_implicit_assertion(ImplicitAssertion::from(i)); } }; (false, $obj:ident, $ia:expr) => { let _ = &$ia; }; }
+    let (kp, pk) = R::ed_keypair(9); let (_k2, pk2) = R::ed_keypair(10); let k64 = lkv(Key::<64>::from(kp)); let k32 = lkv(Key::<32>::from(pk)); let k32b = lkv(Key::<32>::from(pk2));
+    one!(V1, Local, "V1,Local", lkv(PasetoSymmetricKey::<V1, Local>::from(key32(1))), lkv(PasetoSymmetricKey::<V1, Local>::from(key32(1))), lkv(PasetoSymmetricKey::<V1, Local>::from(key32(2))), try_encrypt, false);
+    one!(V2, Local, "V2,Local", lkv(PasetoSymmetricKey::<V2, Local>::from(key32(1))), lkv(PasetoSymmetricKey::<V2, Local>::from(key32(1))), lkv(PasetoSymmetricKey::<V2, Local>::from(key32(2))), try_encrypt, false);
+    one!(V3, Local, "V3,Local", lkv(PasetoSymmetricKey::<V3, Local>::from(key32(1))), lkv(PasetoSymmetricKey::<V3, Local>::from(key32(1))), lkv(PasetoSymmetricKey::<V3, Local>::from(key32(2))), try_encrypt, true);
+    one!(V4, Local, "V4,Local", lkv(PasetoSymmetricKey::<V4, Local>::from(key32(1))), lkv(PasetoSymmetricKey::<V4, Local>::from(key32(1))), lkv(PasetoSymmetricKey::<V4, Local>::from(key32(2))), try_encrypt, true);
+    one!(V2, Public, "V2,Public", lkv(PasetoAsymmetricPrivateKey::<V2, Public>::from(k64)), lkv(PasetoAsymmetricPublicKey::<V2, Public>::from(k32)), lkv(PasetoAsymmetricPublicKey::<V2, Public>::from(k32b)), try_sign, false);
+    one!(V4, Public, "V4,Public", lkv(PasetoAsymmetricPrivateKey::<V4, Public>::from(k64)), lkv(PasetoAsymmetricPublicKey::<V4, Public>::from(k32)), lkv(PasetoAsymmetricPublicKey::<V4, Public>::from(k32b)), try_sign, true);
+    { let pool = rsakeys::pool(); let sk = lkv(pool[0].0.clone()); let pkd = lkv(pool[0].1.clone()); let pko = lkv(pool[1].1.clone());
+      one!(V1, Public, "V1,Public", lkv(PasetoAsymmetricPrivateKey::<V1, Public>::from(&sk[..])), lkv(PasetoAsymmetricPublicKey::<V1, Public>::from(&pkd[..])), lkv(PasetoAsymmetricPublicKey::<V1, Public>::from(&pko[..])), try_sign, false); }
 }
 
 fn main() {
@@ -912,6 +1000,8 @@ fn main() {
         "C11" => c11_c12("C11"), "C12" => c11_c12("C12"), "C13" => c13(), "C14" => c14(), "C15" => c15(), "C16" => c16(), "C17" => { c17(); c17_time_claims() }, "C18" => c18(),
         _ => {}
     }
+    #[cfg(feature = "main_set")]
+    layer_matrix(&pid);
     #[cfg(feature = "v3pub_set")]
     v3pub(&pid);
 }
